@@ -66,7 +66,7 @@ def NodeTB2 (op : TB2) (a b : Nat) (bl br : List α) (cl : Class) (s : Store α)
 def Rel : F α → STree α → GTree α → Prop
   | .var _, st, gt => st = .leaf ∧ gt = .leaf
   | .const _, st, gt => st = .leaf ∧ gt = .leaf
-  | .un op φ, st, gt => ∃ c k, st = .n1 .unit c ∧ gt = .n1 (clsUn op) [] k ∧ op ≠ .sqrt ∧ Rel φ c k
+  | .un op φ, st, gt => ∃ c k, st = .n1 .unit c ∧ gt = .n1 (classUn op) [] k ∧ op ≠ .sqrt ∧ Rel φ c k
   | .bin op φ ψ, st, gt => ∃ c1 c2 l r cl s, st = .n2 .unit c1 c2 ∧ gt = .n2 cl s l r ∧ NodeBin op cl s ∧
       Rel φ c1 l ∧ Rel ψ c2 r
   | .tmp1 op φ, st, gt => ∃ c k cl key p, st = .n1 (.val p) c ∧ gt = .n1 cl (encVal key p) k ∧
@@ -78,7 +78,74 @@ def Rel : F α → STree α → GTree α → Prop
   | .tb2 op a b φ ψ, st, gt => ∃ c1 c2 l r bl br cl s, st = .n2 (.buf2 bl br) c1 c2 ∧ gt = .n2 cl s l r ∧
       NodeTB2 op a b bl br cl s ∧ bl.length = b + 1 ∧ br.length = b + 1 ∧ a ≤ b ∧ Rel φ c1 l ∧ Rel ψ c2 r
 
-theorem clsUn_eq (op : Un) : clsUn op = classUn op := by cases op <;> rfl
+/-! ### what the extracted construction table (`GeneratedOnCtor.lean`) gives for the online node classes -/
+
+/-- The constructed object paired with its class. -/
+def withCls (c : Class) (r : Except PyErr (Store α)) : Except PyErr (Class × Store α) :=
+  do let s ← r; pure (c, s)
+
+omit [Val α] in
+theorem withCls_ok {c : Class} {r : Except PyErr (Store α)} {s : Store α} (h : r = .ok s) :
+    withCls c r = .ok (c, s) := by subst h; rfl
+
+theorem raisesFirst_un (op : Un) : raisesFirst op.kind = .ok () := by cases op <;> rfl
+
+theorem raisesFirst_bin (op : Bin) : raisesFirst op.kind = .ok () := by cases op <;> rfl
+
+theorem buildOp_un (op : Un) :
+    buildOp (α := α) op.kind none none = withCls (classUn op) (construct (classUn op) []) := by
+  cases op <;> rfl
+
+theorem buildOp_bin (op : Bin) (cl : Class) (h : classBin op = some cl) :
+    buildOp (α := α) op.kind none none = withCls cl (construct cl []) := by
+  cases op <;> simp [classBin] at h <;> subst h <;> rfl
+
+theorem buildOp_pred (c : Cmp) :
+    buildOp (α := α) (Bin.pred c).kind (some c) none
+      = withCls Gen.PredicateOperation (construct Gen.PredicateOperation [.cmp c]) := rfl
+
+theorem buildOp_t1 (op : T1) (cl : Class) (key : String) (h : classT1 op = some (cl, key)) :
+    raisesFirst op.kind = .ok () ∧
+    buildOp (α := α) op.kind none none = withCls cl (construct cl []) := by
+  cases op <;> simp [classT1] at h <;> obtain ⟨rfl, rfl⟩ := h <;> exact ⟨rfl, rfl⟩
+
+theorem buildOp_since :
+    raisesFirst T2.since.kind = .ok () ∧
+    buildOp (α := α) T2.since.kind none none
+      = withCls Gen.SinceOperation (construct Gen.SinceOperation []) := ⟨rfl, rfl⟩
+
+theorem buildOp_tb1 (op : TB1) (cl : Class) (h : classTB1 op = some cl) (a b : Nat) :
+    raisesFirst op.kind = .ok () ∧
+    buildOp (α := α) op.kind none (some (a, b)) = withCls cl (construct cl [.int a, .int b]) := by
+  cases op <;> simp [classTB1] at h <;> subst h <;> exact ⟨rfl, rfl⟩
+
+theorem buildOp_tb2_since (a b : Nat) :
+    raisesFirst TB2.since.kind = .ok () ∧
+    buildOp (α := α) TB2.since.kind none (some (a, b))
+      = withCls Gen.SinceTimedOperation (construct Gen.SinceTimedOperation [.int a, .int b]) := ⟨rfl, rfl⟩
+
+theorem buildOp_tb2_precedes (a b : Nat) :
+    raisesFirst TB2.precedes.kind = .ok () ∧
+    buildOp (α := α) TB2.precedes.kind none (some (a, b))
+      = withCls Gen.PrecedesTimedOperation (construct Gen.PrecedesTimedOperation [.int a, .int b]) := ⟨rfl, rfl⟩
+
+/-- The point-wise binary node: the class and the store the construction visitor registers. -/
+theorem initG_bin (op : Bin) (φ ψ : F α) (gt1 gt2 : GTree α) (h2 : initG φ = .ok gt1) (k2 : initG ψ = .ok gt2)
+    (hpl : (match op with | .predSat _ | .predZero => false | _ => true) = true) :
+    ∃ cl s, initG (.bin op φ ψ) = .ok (.n2 cl s gt1 gt2) ∧ NodeBin op cl s := by
+  have hgc := gen_Bin_construct (α := α) op
+  have hbo := buildOp_bin (α := α) op
+  cases op
+  case pred c =>
+    refine ⟨_, _, ?_, .inr ⟨c, rfl, rfl, rfl⟩⟩
+    simp [initG, h2, k2, raisesFirst_bin, buildOp_pred, withCls_ok (gen_Pred_construct c),
+      bind, Except.bind, pure, Except.pure]
+  case predSat c => simp at hpl
+  case predZero => simp at hpl
+  all_goals
+    refine ⟨_, _, ?_, .inl ⟨rfl, rfl⟩⟩
+    simp [initG, h2, k2, raisesFirst_bin, hbo _ rfl, withCls_ok (hgc _ rfl),
+      bind, Except.bind, pure, Except.pure]
 
 /-! ### `online` per constructor -/
 
@@ -133,9 +200,10 @@ theorem init_rel (φ : F α) (hon : φ.online = true) (hwf : φ.wf = true) (hpl 
     have hR : R op.kind = false := by cases op <;> rfl
     have hH : H op.kind = true := by cases op <;> rfl
     have hne : op ≠ .sqrt := by rintro rfl; simp at hpl
-    refine ⟨.n1 .unit st, .n1 (clsUn op) [] gt, ?_, ?_, st, gt, rfl, rfl, hne, h3⟩
+    refine ⟨.n1 .unit st, .n1 (classUn op) [] gt, ?_, ?_, st, gt, rfl, rfl, hne, h3⟩
     · simp [initTree, hR, hH, h1, bind, Except.bind, pure, Except.pure]
-    · simp [initG, h2, clsUn_eq, gen_Un_construct, bind, Except.bind, pure, Except.pure]
+    · simp [initG, h2, raisesFirst_un, buildOp_un, withCls_ok (gen_Un_construct op),
+        bind, Except.bind, pure, Except.pure]
   | bin op φ ψ ih1 ih2 =>
     simp only [plainOn, Bool.and_eq_true] at hpl
     simp only [F.wf, Bool.and_eq_true] at hwf
@@ -143,34 +211,27 @@ theorem init_rel (φ : F α) (hon : φ.online = true) (hwf : φ.wf = true) (hpl 
     obtain ⟨st2, gt2, k1, k2, k3⟩ := ih2 (on_bin hon).2 hwf.2 hpl.2
     have hR : R op.kind = false := by cases op <;> rfl
     have hH : H op.kind = true := by cases op <;> rfl
-    have hcls : ∃ cl args s, clsBin (α := α) op = .ok (cl, args) ∧ construct cl args = .ok s ∧ NodeBin op cl s := by
-      have hgc := gen_Bin_construct (α := α) op
-      cases op
-      case pred c => exact ⟨_, _, _, rfl, gen_Pred_construct c, .inr ⟨c, rfl, rfl, rfl⟩⟩
-      case predSat c => simp at hpl
-      case predZero => simp at hpl
-      all_goals exact ⟨_, _, _, rfl, hgc _ rfl, .inl ⟨rfl, rfl⟩⟩
-    obtain ⟨cl, args, s, hc1, hc2, hc3⟩ := hcls
-    refine ⟨.n2 .unit st1 st2, .n2 cl s gt1 gt2, ?_, ?_, st1, st2, gt1, gt2, cl, s, rfl, rfl, hc3, h3, k3⟩
-    · simp [initTree, hR, hH, h1, k1, bind, Except.bind, pure, Except.pure]
-    · simp [initG, h2, k2, hc1, hc2, bind, Except.bind, pure, Except.pure]
+    obtain ⟨cl, s, hc1, hc3⟩ := initG_bin op φ ψ gt1 gt2 h2 k2 hpl.1.1
+    refine ⟨.n2 .unit st1 st2, .n2 cl s gt1 gt2, ?_, hc1, st1, st2, gt1, gt2, cl, s, rfl, rfl, hc3, h3, k3⟩
+    simp [initTree, hR, hH, h1, k1, bind, Except.bind, pure, Except.pure]
   | tmp1 op φ ih =>
     simp only [plainOn] at hpl
     simp only [F.wf] at hwf
     obtain ⟨hk, hon'⟩ := on_tmp1 hon
     obtain ⟨st, gt, h1, h2, h3⟩ := ih hon' hwf hpl
-    have hcls : ∃ cl key, classT1 op = some (cl, key) ∧ clsT1 op = .ok cl ∧ R op.kind = false ∧ H op.kind = true := by
+    have hcls : ∃ cl key, classT1 op = some (cl, key) ∧ R op.kind = false ∧ H op.kind = true := by
       cases op
       case next => exact absurd hk (by decide)
       case snext => exact absurd hk (by decide)
       case ev => exact absurd hk (by decide)
       case alw => exact absurd hk (by decide)
-      all_goals exact ⟨_, _, rfl, rfl, rfl, rfl⟩
-    obtain ⟨cl, key, hc, hc', hR, hH⟩ := hcls
+      all_goals exact ⟨_, _, rfl, rfl, rfl⟩
+    obtain ⟨cl, key, hc, hR, hH⟩ := hcls
+    obtain ⟨hrf, hbo⟩ := buildOp_t1 (α := α) op cl key hc
     obtain ⟨p, hp1, hp2⟩ := gen_T1_construct (α := α) op cl key hc
     refine ⟨.n1 (.val p) st, .n1 cl (encVal key p) gt, ?_, ?_, st, gt, cl, key, p, rfl, rfl, hc, h3⟩
     · simp [initTree, hR, hH, h1, hp1, bind, Except.bind, pure, Except.pure]
-    · simp [initG, h2, hc', hp2, bind, Except.bind, pure, Except.pure]
+    · simp [initG, h2, hrf, hbo, withCls_ok hp2, bind, Except.bind, pure, Except.pure]
   | tmp2 op φ ψ ih1 ih2 =>
     simp only [plainOn, Bool.and_eq_true] at hpl
     simp only [F.wf, Bool.and_eq_true] at hwf
@@ -186,22 +247,24 @@ theorem init_rel (φ : F α) (hon : φ.online = true) (hwf : φ.wf = true) (hpl 
     · have hR : R T2.since.kind = false := rfl
       have hH : H T2.since.kind = true := rfl
       simp [initTree, hR, hH, h1, k1, hp1, bind, Except.bind, pure, Except.pure]
-    · simp [initG, h2, k2, hp2, bind, Except.bind, pure, Except.pure]
+    · obtain ⟨hrf, hbo⟩ := buildOp_since (α := α)
+      simp [initG, h2, k2, hrf, hbo, withCls_ok hp2, bind, Except.bind, pure, Except.pure]
   | tb1 op a b φ ih =>
     simp only [plainOn] at hpl
     simp only [F.wf, Bool.and_eq_true, decide_eq_true_eq] at hwf
     obtain ⟨hk, hon'⟩ := on_tb1 hon
     obtain ⟨st, gt, h1, h2, h3⟩ := ih hon' hwf.2 hpl
-    have hcls : ∃ cl, classTB1 op = some cl ∧ clsTB1 op = .ok cl ∧ R op.kind = false ∧ H op.kind = true := by
+    have hcls : ∃ cl, classTB1 op = some cl ∧ R op.kind = false ∧ H op.kind = true := by
       cases op
       case ev => exact absurd hk (by decide)
       case alw => exact absurd hk (by decide)
-      all_goals exact ⟨_, rfl, rfl, rfl, rfl⟩
-    obtain ⟨cl, hc, hc', hR, hH⟩ := hcls
+      all_goals exact ⟨_, rfl, rfl, rfl⟩
+    obtain ⟨cl, hc, hR, hH⟩ := hcls
+    obtain ⟨hrf, hbo⟩ := buildOp_tb1 (α := α) op cl hc a b
     obtain ⟨l, hl1, hl2, hl3⟩ := gen_TB1_construct (α := α) op cl hc a b
     refine ⟨.n1 (.buf l) st, .n1 cl (encBuf a b l) gt, ?_, ?_, st, gt, cl, l, rfl, rfl, hc, hl2, hwf.1, h3⟩
     · simp [initTree, hR, hH, h1, hl1, bind, Except.bind, pure, Except.pure]
-    · simp [initG, h2, hc', hl3, bind, Except.bind, pure, Except.pure]
+    · simp [initG, h2, hrf, hbo, withCls_ok hl3, bind, Except.bind, pure, Except.pure]
   | tb2 op a b φ ψ ih1 ih2 =>
     simp only [plainOn, Bool.and_eq_true] at hpl
     simp only [F.wf, Bool.and_eq_true, decide_eq_true_eq] at hwf
@@ -209,22 +272,26 @@ theorem init_rel (φ : F α) (hon : φ.online = true) (hwf : φ.wf = true) (hpl 
     obtain ⟨st1, gt1, h1, h2, h3⟩ := ih1 hon1 hwf.1.2 hpl.1
     obtain ⟨st2, gt2, k1, k2, k3⟩ := ih2 hon2 hwf.2 hpl.2
     have hcls : ∃ (cl : Class) (s : Store α) (bl br : List α),
-        clsTB2 op = .ok cl ∧ R op.kind = false ∧ H op.kind = true ∧
+        raisesFirst op.kind = .ok () ∧
+        buildOp (α := α) op.kind none (some (a, b)) = withCls cl (construct cl [.int a, .int b]) ∧
+        R op.kind = false ∧ H op.kind = true ∧
         initTB2 op b = .buf2 bl br ∧ bl.length = b + 1 ∧ br.length = b + 1 ∧
         construct cl [.int a, .int b] = .ok s ∧ NodeTB2 op a b bl br cl s := by
       cases op
       case «until» => exact absurd hk (by decide)
       case since =>
         obtain ⟨l, r, e1, e2, e3, e4⟩ := gen_SinceTimed_construct (α := α) a b
-        exact ⟨_, _, l, r, rfl, rfl, rfl, e1, e2, e3, e4, .inl ⟨rfl, rfl, rfl⟩⟩
+        exact ⟨_, _, l, r, (buildOp_tb2_since (α := α) a b).1, (buildOp_tb2_since (α := α) a b).2, rfl, rfl, e1, e2, e3, e4,
+          .inl ⟨rfl, rfl, rfl⟩⟩
       case precedes =>
         obtain ⟨l, r, e1, e2, e3, e4⟩ := gen_Precedes_construct (α := α) a b
-        exact ⟨_, _, l, r, rfl, rfl, rfl, e1, e2, e3, e4, .inr ⟨rfl, rfl, rfl⟩⟩
-    obtain ⟨cl, s, bl, br, hc', hR, hH, e1, e2, e3, e4, e5⟩ := hcls
+        exact ⟨_, _, l, r, (buildOp_tb2_precedes (α := α) a b).1, (buildOp_tb2_precedes (α := α) a b).2, rfl, rfl, e1, e2, e3, e4,
+          .inr ⟨rfl, rfl, rfl⟩⟩
+    obtain ⟨cl, s, bl, br, hrf, hbo, hR, hH, e1, e2, e3, e4, e5⟩ := hcls
     refine ⟨.n2 (.buf2 bl br) st1 st2, .n2 cl s gt1 gt2, ?_, ?_,
       st1, st2, gt1, gt2, bl, br, cl, s, rfl, rfl, e5, e2, e3, hwf.1.1, h3, k3⟩
     · simp [initTree, hR, hH, h1, k1, e1, bind, Except.bind, pure, Except.pure]
-    · simp [initG, h2, k2, hc', e4, bind, Except.bind, pure, Except.pure]
+    · simp [initG, h2, k2, hrf, hbo, withCls_ok e4, bind, Except.bind, pure, Except.pure]
 
 /-! ### one update -/
 
@@ -240,9 +307,9 @@ theorem step_rel (env : String → α) (φ : F α) : ∀ st gt, Rel φ st gt →
   | un op φ ih =>
     rintro st gt ⟨c, k, rfl, rfl, hne, hrel⟩
     obtain ⟨c', k', v, h1, h2, h3⟩ := ih c k hrel
-    have hu : update (clsUn op) [] [.num v] = .ok ([], .num (op.app v)) := by
-      rw [clsUn_eq, gen_Un_update]; simp [hne]
-    refine ⟨.n1 .unit c', .n1 (clsUn op) [] k', op.app v, ?_, ?_, c', k', rfl, rfl, hne, h3⟩
+    have hu : update (classUn op) [] [.num v] = .ok ([], .num (op.app v)) := by
+      rw [gen_Un_update]; simp [hne]
+    refine ⟨.n1 .unit c', .n1 (classUn op) [] k', op.app v, ?_, ?_, c', k', rfl, rfl, hne, h3⟩
     · simp [stepTree, h1, bind, Except.bind, pure, Except.pure]
     · simp [stepG, h2, hu, numOf, bind, Except.bind, pure, Except.pure]
   | bin op φ ψ ih1 ih2 =>
@@ -314,8 +381,8 @@ theorem reset_rel (φ : F α) : ∀ st gt, Rel φ st gt →
   | un op φ ih =>
     rintro st gt ⟨c, k, rfl, rfl, hne, hrel⟩
     obtain ⟨k', h1, h2⟩ := ih c k hrel
-    refine ⟨.n1 (clsUn op) [] k', ?_, resetTree φ c, k', rfl, rfl, hne, h2⟩
-    simp [resetG, h1, clsUn_eq, gen_Un_reset, bind, Except.bind, pure, Except.pure]
+    refine ⟨.n1 (classUn op) [] k', ?_, resetTree φ c, k', rfl, rfl, hne, h2⟩
+    simp [resetG, h1, gen_Un_reset, bind, Except.bind, pure, Except.pure]
   | bin op φ ψ ih1 ih2 =>
     rintro st gt ⟨c1, c2, l, r, cl, s, rfl, rfl, hn, hrel1, hrel2⟩
     obtain ⟨l', h1, h2⟩ := ih1 c1 l hrel1
